@@ -310,3 +310,16 @@ Lemma witness_round7 :
 Proof.
   repeat split; try reflexivity; repeat constructor; discriminate.
 Qed.
+
+(* ------------------------------------------------------------------ histories across kinds have no state *)
+Definition xhist_vals (steps : list xstep) : list val := map (fun s => result (xstep_req s)) steps.
+Lemma xhist_stateless :
+  (forall steps, run_C16_xhist steps = VL [VB (forallb xstep_wf steps); VL (xhist_vals steps)]) /\
+  (forall pre s post, nth_error (xhist_vals (pre ++ s :: post)) (length pre) = Some (result (xstep_req s))) /\
+  (forall steps steps', Permutation steps steps' -> Permutation (xhist_vals steps) (xhist_vals steps')).
+Proof.
+  split; [reflexivity|]. split.
+  - intros pre s post. unfold xhist_vals. rewrite map_app. rewrite nth_error_app2 by (rewrite map_length; lia).
+    rewrite map_length, Nat.sub_diag. reflexivity.
+  - intros steps steps' H. unfold xhist_vals. apply Permutation_map. exact H.
+Qed.
